@@ -160,24 +160,23 @@ Qed.
 (* ---- get_libraries ---- *)
 Theorem query_libraries_spec fuel it rec inside pats res :
   LookOK s (q_reg o) (q_key o) RLibs -> ~ In [] pats ->
-  ~ (rec = true /\ inside = false /\ exists x, item_owner s it x /\ kind_of s x = Some KInstance) ->
   query_libraries s o fuel [it] rec inside pats = WOk res ->
   forall e, In e res <->
     (reachA_libraries s it e \/ reachB_libraries s rec inside it e) /\ matching pats e.
 Proof.
-  intros HL Hp Hx H e. unfold query_libraries in H. destruct (two_stage_ok _ _ _ _ _ _ _ _ H) as (ps & os & E). rewrite E in H.
+  intros HL Hp H e. unfold query_libraries in H. destruct (two_stage_ok _ _ _ _ _ _ _ _ H) as (ps & os & E). rewrite E in H.
   rewrite (two_stage_spec s o false BFound RLibs HL ps os pats res Hp H e).
-  destruct (cands_libraries_spec s W rec inside fuel it ps os E Hx) as (HA & HB & _). unfold candidate. rewrite HA, HB, keyok_false. tauto.
+  destruct (cands_libraries_spec s W rec inside fuel it ps os E) as (HA & HB & _). unfold candidate. rewrite HA, HB, keyok_false. tauto.
 Qed.
 
-(* from an instance with selection OUTSIDE, recursive is ignored: only the library of the
-   definition the instance sits in is a candidate *)
+(* from an instance with selection OUTSIDE (the case in which recursive used to be ignored): the
+   library of the definition the instance sits in and, recursive, of every definition above it *)
 Theorem query_libraries_instance_outside fuel it x rec pats res :
   LookOK s (q_reg o) (q_key o) RLibs -> ~ In [] pats ->
   item_owner s it x -> kind_of s x = Some KInstance ->
   query_libraries s o fuel [it] rec false pats = WOk res ->
   forall e, In e res <->
-    (exists p, par s RChildren x = Some p /\ par s RDefs p = Some e) /\ matching pats e.
+    (exists p d', par s RChildren x = Some p /\ star (used_by s) rec p d' /\ par s RDefs d' = Some e) /\ matching pats e.
 Proof.
   intros HL Hp Hx Hk H e. unfold query_libraries in H. destruct (two_stage_ok _ _ _ _ _ _ _ _ H) as (ps & os & E). rewrite E in H.
   rewrite (two_stage_spec s o false BFound RLibs HL ps os pats res Hp H e).
